@@ -27,10 +27,10 @@ var rdStrPool = []string{"alice", "bob", "secret pw", "4111-1111"}
 var rdNumPool = []string{"1234", "77", "3.5", "900001"}
 
 type rdStmt struct {
-	sql    string
-	lex    []rdLex
+	sql     string
+	lex     []rdLex
 	struct_ map[string]bool // upper-cased structural tokens of the statement
-	broken bool
+	broken  bool
 }
 
 type rdBuilder struct {
